@@ -19,6 +19,7 @@ import (
 	"math/big"
 	"sort"
 	"strings"
+	"syscall"
 	"time"
 
 	"verif/h/fw"
@@ -339,6 +340,10 @@ type instance struct {
 	chain *chainStub
 	done  int
 	errs  []string
+	// round2.checkSignature is re-run whenever the header's Signature/Random bytes differ
+	// from the ones it was last run on in this instance
+	checkedOn  string
+	checkedErr error
 }
 
 func (e *env) fresh() *instance {
@@ -454,11 +459,14 @@ func (in *instance) compare(part string, step int, s sym, M, A map[int]bool) *fi
 	}
 	if cp {
 		h := in.v.VerifRoundHeader()
-		var cerr error
-		if p, val, site := fw.Try(func() { cerr = in.v.VerifRoundCheckSignature() }); p {
-			return &finding{Sig: "C15:panic:" + site, Part: part, Step: step,
-				Msg: fmt.Sprintf("round2.checkSignature panicked after message %d (%s): %v", step+1, s.Name, val)}
+		if on := fmt.Sprintf("%x|%x", h.Signature, h.Random); on != in.checkedOn {
+			if p, val, site := fw.Try(func() { in.checkedErr = in.v.VerifRoundCheckSignature() }); p {
+				return &finding{Sig: "C15:panic:" + site, Part: part, Step: step,
+					Msg: fmt.Sprintf("round2.checkSignature panicked after message %d (%s): %v", step+1, s.Name, val)}
+			}
+			in.checkedOn = on
 		}
+		cerr := in.checkedErr
 		bad := ""
 		switch {
 		case cerr != nil:
@@ -668,7 +676,7 @@ func (e *env) bfs(c *fw.Ctx, byz []int, depth int, litLen, litByz int) {
 		for _, h := range frontier {
 			for _, a := range alpha {
 				if c.Expired() {
-					c.Cap(fmt.Sprintf("bfs n=%d byz=%v stopped at depth %d", e.n, byz, d))
+					c.Cap(fmt.Sprintf("bfs n=%d stopped by the time budget", e.n))
 					return
 				}
 				seq := append(append([]int{}, h...), a)
@@ -736,7 +744,7 @@ func (e *env) literal(c *fw.Ctx, idx *int64, L, moreThanByz, maxByz int) {
 			*idx++
 			if c.Mine(*idx) {
 				if c.Expired() {
-					c.Cap(fmt.Sprintf("literal n=%d L=%d %d<byz<=%d stopped at case %d", e.n, L, moreThanByz, maxByz, *idx))
+					c.Cap(fmt.Sprintf("literal n=%d L=%d %d<byz<=%d stopped by the time budget", e.n, L, moreThanByz, maxByz))
 					return
 				}
 				res := e.exec(seq, false)
@@ -764,34 +772,54 @@ func (e *env) literal(c *fw.Ctx, idx *int64, L, moreThanByz, maxByz int) {
 
 type plan struct {
 	n                int
-	bfsByz, bfsDepth int
-	litLen, litByz   int
-	litLen2, litByz2 int // optional second literal pass (0: none)
+	bfsByz, bfsDepth int // BFS: exactly bfsByz members may be Byzantine (covers fewer), depth n+2
+	litLen, litByz   int // literal pass: length litLen, at most litByz Byzantine members (0 length: none)
+	litLen2, litByz2 int // second literal pass: more than litByz and at most litByz2 Byzantine members
 }
 
 func plans(thorough bool) []plan {
 	if !thorough {
-		return []plan{{n: 3, bfsByz: 1, bfsDepth: 5, litLen: 4, litByz: 1}}
+		return []plan{
+			{n: 3, bfsByz: 1, bfsDepth: 5, litLen: 3, litByz: 1},
+			{n: 4, bfsByz: 1, bfsDepth: 6},
+		}
 	}
 	return []plan{
 		{n: 3, bfsByz: 2, bfsDepth: 5, litLen: 5, litByz: 1, litLen2: 4, litByz2: 2},
-		{n: 5, bfsByz: 2, bfsDepth: 7, litLen: 4, litByz: 2},
+		{n: 4, bfsByz: 2, bfsDepth: 6},
+		{n: 5, bfsByz: 2, bfsDepth: 7, litLen: 4, litByz: 1},
 	}
+}
+
+func cpuMs() int64 {
+	var ru syscall.Rusage
+	syscall.Getrusage(syscall.RUSAGE_SELF, &ru)
+	return (ru.Utime.Nano() + ru.Stime.Nano()) / 1e6
 }
 
 func run(c *fw.Ctx) {
 	var idx int64
-	for _, p := range plans(c.Thorough()) {
+	defer func() { c.Count("worker_cpu_ms", cpuMs()) }()
+	ps := plans(c.Thorough())
+	// phase 1: BFS over histories, one task per Byzantine set
+	for _, p := range ps {
 		e := getEnv(p.n)
 		c.Note(fmt.Sprintf("n%d", p.n), map[string]interface{}{"k": e.k, "alphabet": len(e.syms),
-			"bfs_byzantine": p.bfsByz, "bfs_depth": p.bfsDepth, "literal_len": p.litLen, "literal_byzantine": p.litByz})
+			"bfs_byzantine": p.bfsByz, "bfs_depth": p.bfsDepth, "literal_len": p.litLen, "literal_byzantine": p.litByz,
+			"literal2_len": p.litLen2, "literal2_byzantine": p.litByz2})
 		for _, b := range subsets(p.n, p.bfsByz) {
 			idx++
 			if c.Mine(idx) {
 				e.bfs(c, b, p.bfsDepth, p.litLen, p.litByz)
 			}
 		}
-		e.literal(c, &idx, p.litLen, -1, p.litByz)
+	}
+	// phase 2: literal enumeration
+	for _, p := range ps {
+		e := getEnv(p.n)
+		if p.litLen > 0 {
+			e.literal(c, &idx, p.litLen, -1, p.litByz)
+		}
 		if p.litLen2 > 0 {
 			// only the sequences the first pass did not contain (more Byzantine members)
 			e.literal(c, &idx, p.litLen2, p.litByz, p.litByz2)
